@@ -11,7 +11,8 @@ MonInit == [ sid |-> "", p |-> [policy |-> "none", thr |-> 0, intervalMs |-> 0, 
              hist |-> <<>>,        \* API history in return order: [op, id, pts, call, ret, err, (flush: total, lastSeq, bufN)]
              calledPts |-> 0,      \* points of Write calls issued so far
              inflight |-> 0,       \* Write calls issued and not yet returned
-             chunks |-> <<>>, snaps |-> <<>>, firstFlushCall |-> 0, faults |-> 0, quiesced |-> FALSE, bad |-> {} ]
+             chunks |-> <<>>, snaps |-> <<>>, firstFlushCall |-> 0, faults |-> 0, quiesced |-> FALSE, bad |-> {},
+             stallUs |-> 0 ]       \* scheduling stalls recorded by the harness (stallWatch); they extend the interval bound
 MonReset(e) == [MonInit EXCEPT !.p = [policy |-> e.p.policy, thr |-> e.p.thr, intervalMs |-> e.p.intervalMs, seqMode |-> e.p.seqMode]]
 
 NPts(gs) == LET F[k \in 0..Len(gs)] == IF k = 0 THEN 0 ELSE F[k - 1] + Len(gs[k].pts) IN F[Len(gs)]
@@ -50,6 +51,7 @@ MonStep(m, e) ==
                                 \cup (IF e.groups = <<>> THEN {"EmptyChunk"} ELSE {})]
       [] e.ev = "Fault" \/ (e.ev = "BLinkDown" /\ e.cause = "script") -> [m EXCEPT !.faults = @ + 1]
       [] e.ev = "Quiesced" -> [m EXCEPT !.quiesced = TRUE]
+      [] e.ev = "Stall" -> [m EXCEPT !.stallUs = @ + e.ms * 1000]
       [] OTHER -> m
 
 \* ------------------------------------------------------------------ predicted partition (sequential histories)
@@ -95,7 +97,7 @@ IntervalLate(m) ==
     m.p.policy \in {"interval", "intervalOrSize"} /\ m.quiesced /\ m.faults = 0 /\
     \E w \in RangeS(m.hist) : w.op = "Write" /\ w.err = "" /\ \E q \in RangeS(w.pts) :
         LET cs == { c \in RangeS(m.chunks) : \E k \in 1..Len(c.gl) : c.gl[k].id = w.id /\ q \in RangeS(c.gl[k].pts) }
-        IN cs = {} \/ \A c \in cs : c.t - w.t > (m.p.intervalMs * 1000 * 3) \div 2 + 250000
+        IN cs = {} \/ \A c \in cs : c.t - w.t > (m.p.intervalMs * 1000 * 3) \div 2 + 250000 + m.stallUs
 \* (g) no group without points unless a zero-point write put it there
 EmptyGroup(m) == \E c \in RangeS(m.chunks) : \E k \in 1..Len(c.gl) : c.gl[k].pts = <<>> /\
                     ~\E w \in RangeS(m.hist) : w.op = "Write" /\ w.id = c.gl[k].id /\ w.pts = <<>>
